@@ -1,3 +1,155 @@
 import Driver.Common
-/-! Model driver for C13 — not built yet. -/
-def main (_args : List String) : IO Unit := pure ()
+import Logrange.Model.Wire
+import Logrange.Model.WireFields
+import Logrange.Model.EscapeJson
+import Logrange.Model.PosStr
+import Logrange.Model.Nesting
+import Logrange.Generated.C13
+/-! Model driver for C13 (decoders, escaper, positions, field lists). Byte strings are hex (`-` = empty). Requests:
+
+* `uvarint <buf>` · `bytes <buf>` · `ev.unmarshal <buf>` · `le.unmarshal <buf>` · `qreq <buf>` · `qres <buf>`
+    → `ok <n> <values…>` | `err` | `panic f13=<0|1>` (`f13` = the class predicate `lensSafe buf = false`)
+* `wptexts <buf>` → the field texts (KV strings) the Write decoding would hand to `NewFieldsFromKVString`
+* `wpdecode <buf> <text>:<fields|!>…` → `ok <tags> <k> <ts>/<msg>/<fields>…` | `err` | `panic f13=…`; the table is the
+  answer of the real `field.NewFieldsFromKVString` for each text (`!` = error)
+* `ev.marshal <ts> <msg> <fields>` · `le.write <ts> <msg> <tags> <fields>` · `qreq.write <id> <q> <pos> <wt> <off> <lim>` ·
+  `wpencode <tags> <flds> (<ts> <msg> <tags> <fields>)*` → encoded bytes
+* `escjson <s>` → `ok <out>` | `fuel` | `panic`
+* `pos <s>` → `ok <cid> <idx>` | `err` | `panic`;  `statepos <s>` → `ok <jrnl>=<cid>.<idx>…` | `err` | `panic`
+* `f.value <fields> <name>` · `f.items <fields>` · `f.check <fields>` · `f.build (<part> <trimmed> <unquoted|!|=>)*`
+* `nest <budget> <text>` → `ok <depth>` | `panic` (stack budget exhausted)
+-/
+open Go Logrange Logrange.Wire Driver
+
+def cls (buf : Bytes) : String := if lensSafe buf then "panic f13=0" else "panic f13=1"
+
+def showOut {α : Type} (buf : Bytes) (f : α → String) : Outcome α → String
+  | .ok a => "ok " ++ f a
+  | .err => "err"
+  | .panic _ => cls buf
+  | .outOfFuel => "fuel"
+
+def showApiEv (e : ApiEvent) : String := s!"{e.ts}/{hex e.msg}/{hex e.tags}/{hex e.fields}"
+def showEv (e : Event) : String := s!"{e.ts}/{hex e.msg}/{hex e.fields}"
+def showReq (q : QueryRequest) : String := s!"{q.reqId} {hex q.query} {hex q.pos} {q.waitTimeout} {q.offset} {q.limit}"
+
+/-- driver-only helper: the KV texts a Write body contains (decoding as far as it goes, every text accepted) -/
+def evTexts : Nat → Bytes → List Bytes
+  | 0, _ => []
+  | f + 1, b =>
+    match unmarshalLogEvent b with
+    | .ok (n, le) => le.fields :: evTexts f (b.drop n)
+    | _ => []
+
+def wpTexts (buf : Bytes) : List Bytes :=
+  match unmarshalString buf with
+  | .ok (n1, _) =>
+    match unmarshalString (buf.drop n1) with
+    | .ok (n2, flds) =>
+      match unmarshalUint32 (buf.drop (n1 + n2)) with
+      | .ok (n3, ln) => flds :: evTexts (min ln buf.length) (buf.drop (n1 + n2 + n3))
+      | _ => [flds]
+    | _ => []
+  | _ => []
+
+def parseTable (toks : List String) : List (Bytes × Option Bytes) :=
+  toks.filterMap fun t =>
+    match t.splitOn ":" with
+    | [k, v] => some (unhex k, if v == "!" then none else some (unhex v))
+    | _ => none
+
+def lookup (tbl : List (Bytes × Option Bytes)) (k : Bytes) : Option Bytes :=
+  match tbl.find? (fun e => e.1 == k) with
+  | some e => e.2
+  | none => none
+
+def evList : List String → List ApiEvent
+  | ts :: m :: t :: f :: r => ⟨ts.toNat!, unhex m, unhex t, unhex f⟩ :: evList r
+  | _ => []
+
+def buildParts : List String → List (Bytes × Bytes × String)
+  | p :: t :: u :: r => (unhex p, unhex t, u) :: buildParts r
+  | _ => []
+
+def dedupe (l : List Bytes) : List Bytes := l.foldl (fun acc x => if acc.contains x then acc else acc ++ [x]) []
+
+def step (_ : Unit) (toks : List String) : Unit × String :=
+  ((), match toks with
+  | ["uvarint", b] => let buf := unhex b; showOut buf (fun (p : Nat × Nat) => s!"{p.1} {p.2}") (unmarshalUint buf)
+  | ["bytes", b] => let buf := unhex b; showOut buf (fun (p : Nat × Bytes) => s!"{p.1} {hex p.2}") (unmarshalBytes buf)
+  | ["ev.unmarshal", b] => let buf := unhex b; showOut buf (fun (p : Nat × Event) => s!"{p.1} {showEv p.2}") (Event.unmarshal buf)
+  | ["le.unmarshal", b] => let buf := unhex b; showOut buf (fun (p : Nat × ApiEvent) => s!"{p.1} {showApiEv p.2}") (unmarshalLogEvent buf)
+  | ["qreq", b] => let buf := unhex b; showOut buf (fun (p : Nat × QueryRequest) => s!"{p.1} {showReq p.2}") (unmarshalQueryRequest buf)
+  | ["qres", b] =>
+    let buf := unhex b
+    showOut buf (fun (p : Nat × (List ApiEvent × QueryRequest)) =>
+      s!"{p.1} {p.2.1.length} {" ".intercalate (p.2.1.map showApiEv)} | {showReq p.2.2}") (unmarshalQueryResult buf)
+  | ["wptexts", b] => hexList (dedupe (wpTexts (unhex b)))
+  | "wpdecode" :: b :: tbl =>
+    let buf := unhex b
+    let kv := lookup (parseTable tbl)
+    (match wpInit kv buf with
+     | .ok it =>
+       (match wpDrain kv (wpFuel it) it [] with
+        | .ok evs => s!"ok {hex it.tags} {evs.length} {" ".intercalate (evs.map showEv)}".trimAscii.toString
+        | .err => "err"
+        | .panic _ => cls buf
+        | .outOfFuel => "fuel")
+     | .err => "err"
+     | .panic _ => cls buf
+     | .outOfFuel => "fuel")
+  | ["ev.marshal", ts, m, f] => hex (Event.marshal ⟨ts.toNat!, unhex m, unhex f⟩)
+  | ["le.write", ts, m, t, f] => hex (writeLogEvent ⟨ts.toNat!, unhex m, unhex t, unhex f⟩)
+  | ["qreq.write", id, q, p, wt, off, lim] =>
+    hex (writeQueryRequest ⟨id.toNat!, unhex q, unhex p, wt.toNat!, off.toInt!, lim.toNat!⟩)
+  | "wpencode" :: t :: f :: evs => hex (wpEncode (unhex t) (unhex f) (evList evs))
+  | ["escjson", s] =>
+    (match EscapeJson.escapeJson Logrange.Generated.C13.escapeJsonSkipsValidRunes (unhex s) with
+     | .ok o => "ok " ++ hex o
+     | .err => "err"
+     | .panic _ => "panic"
+     | .outOfFuel => "fuel")
+  | ["pos", s] =>
+    (match PosStr.parsePos (unhex s) with
+     | .ok (c, i) => s!"ok {c} {i}"
+     | .err => "err"
+     | .panic _ => "panic"
+     | .outOfFuel => "fuel")
+  | ["statepos", s] =>
+    (match PosStr.applyStatePos (unhex s) with
+     | .ok m => ("ok " ++ " ".intercalate (m.map fun e => s!"{hex e.1}={e.2.1}.{e.2.2}")).trimAscii.toString
+     | .err => "err"
+     | .panic _ => "panic"
+     | .outOfFuel => "fuel")
+  | ["f.value", f, n] =>
+    (match WireFields.value (unhex f) (unhex n) with
+     | .ok v => "ok " ++ hex v
+     | .err => "err"
+     | .panic _ => "panic"
+     | .outOfFuel => "fuel")
+  | ["f.items", f] =>
+    (match WireFields.items (unhex f) with
+     | .ok l => ("ok " ++ hexList l).trimAscii.toString
+     | .err => "err"
+     | .panic _ => "panic"
+     | .outOfFuel => "fuel")
+  | ["f.check", f] => if WireFields.check (unhex f) then "1" else "0"
+  | "f.build" :: ps =>
+    let parts := buildParts ps
+    let trim : Bytes → Bytes := fun v => match parts.find? (fun e => e.1 == v) with | some e => e.2.1 | none => v
+    let unq : Bytes → Option Bytes := fun v =>
+      match parts.find? (fun e => e.2.1 == v) with
+      | some e => if e.2.2 == "!" then none else if e.2.2 == "=" then some v else some (unhex e.2.2)
+      | none => none
+    (match WireFields.build trim unq (parts.map (·.1)) with
+     | some f => "ok " ++ hex f
+     | none => "err")
+  | ["nest", budget, s] =>
+    (match Nesting.parse budget.toNat! (unhex s) with
+     | .ok d => s!"ok {d}"
+     | .err => "err"
+     | .panic _ => "panic"
+     | .outOfFuel => "fuel")
+  | _ => "bad-op")
+
+def main (args : List String) : IO Unit := Driver.run step () args
